@@ -157,6 +157,8 @@ class RealRun:
                 v = kw.get(n, defaults[n])
                 if not callable(v) and v is not None:
                     kw[n] = f(v)
+                elif v is None and n == 'kl_clip':
+                    kw[n] = 1e-3
         if self.scale_spec is not None:
             kw['grad_scaler'] = self.scaler
         return kfac.preconditioner.KFACPreconditioner(model, **kw)
@@ -179,7 +181,10 @@ class RealRun:
         elif kind == 'train_reset':
             # reset_batch() between backward and step (discards what the
             # no-hook mode has accumulated for this iteration)
-            self.train(ev, reset_mid=True)
+            # ['train_reset', j]: reset_batch() after j micro-batches of the
+            # accumulation window (the rest of the window follows)
+            self.train(ev, reset_mid=True,
+                       reset_at=op[1] if len(op) > 1 else None)
         elif kind == 'eval':
             self.model.eval()
             x = R.batch_for(self.cfg['model'], self.cfg.get('batch', 2),
@@ -289,12 +294,16 @@ class RealRun:
         self.rec.append(ev)
         w.point(('op', idx))
 
-    def train(self, ev, reset_mid=False):
+    def train(self, ev, reset_mid=False, reset_at=None):
         cfg = self.cfg
         scale = self._scale() if self.scale_spec is not None else None
         self.clock.i = self.it  # external state changes before the step
         self.model.zero_grad()
+        if reset_at is not None and reset_at >= self.acc:
+            reset_at = None
         for mb in range(self.acc):
+            if reset_mid and reset_at is not None and mb == reset_at:
+                self.pre.reset_batch()
             # as_ranks: single process emulating N ranks as micro-batches
             dr, dm = (mb, 0) if cfg.get('as_ranks') else (self.rank, mb)
             x = R.batch_for(cfg['model'], cfg.get('batch', 2), self.dtype,
@@ -334,8 +343,13 @@ class RealRun:
         ev['meta_before'] = grad_meta(self.model)
         ev['params_before'] = {n: p.detach().clone() for n, p in
                                self.model.state_dict().items()}
-        if reset_mid:
+        if reset_mid and reset_at is None:
             self.pre.reset_batch()
+        if cfg.get('mem_mid'):
+            # memory query in the middle of the iteration (after backward,
+            # before step): batch statistics may be pending
+            ev['mem_mid'] = dict(self.pre.memory_usage())
+            ev['held_mid'] = held_bytes(self.pre)
         self.pre.step()
         ev['P'] = self.grads()
         ev['meta_after'] = grad_meta(self.model)
@@ -383,7 +397,8 @@ def held_bytes(pre):
     """Independent walk: bytes of tensors actually held per category."""
     from kfac.distributed import Future
 
-    tot = {'factors': 0, 'second_order': 0, 'batch': 0}
+    tot = {'factors': 0, 'second_order': 0, 'batch': 0, 'a_batch': 0,
+           'g_batch': 0}
     per_layer = {}
     for mod, (name, layer) in pre._layers.items():
         so = 0
@@ -398,6 +413,7 @@ def held_bytes(pre):
                 tot['factors'] += b
             elif kk in ('a_batch', 'g_batch'):
                 tot['batch'] += b
+                tot[kk] += b
             elif kk in SO_ATTRS:
                 tot['second_order'] += b
                 so += b
@@ -545,18 +561,26 @@ class RefRun:
                         if n > 1:
                             p.grad.div_(n)
             moments = {}
+            # ['train_reset', j] with j < acc: the statistics of the first j
+            # micro-batches of the window were discarded
+            j0 = op[1] if op[0] == 'train_reset' and len(op) > 1 \
+                and op[1] < acc else 0
             if fstep:
                 for nm in names:
                     cap = twin.cap[nm]
-                    MA = sum(R.moment_a(mods[nm], a) for a in cap['a']) \
-                        / len(cap['a'])
+                    sel = [i for i in range(len(cap['a'])) if i % acc >= j0]
+                    ca = [cap['a'][i] for i in sel]
+                    MA = sum(R.moment_a(mods[nm], a) for a in ca) / len(ca)
                     gs = cap['g']
+                    # backward order: captures of one window arrive per
+                    # micro-batch as well (one per backward pass)
+                    gs = [gs[i] for i in sel]
                     MG = sum(R.moment_g(
                         mods[nm], g if scale is None else g.to(F64) / scale)
                         for g in gs) / len(gs)
                     moments[nm] = (MA, MG)
-            if op[0] == 'train_reset' and not cfg.get('kfac', {}).get(
-                    'update_factors_in_hook', True):
+            if op[0] == 'train_reset' and not j0 and not cfg.get(
+                    'kfac', {}).get('update_factors_in_hook', True):
                 moments = {}  # the accumulated batch was discarded
             D = {nm: R.combined_grad(mods[nm]) for nm in names}
             ev['D'] = D
